@@ -116,6 +116,16 @@ class EqGen:
             if d1[1] and R.random() < .6: kt = R.choice(d1[1])[0]; kt = s.perturb(kt) if R.random() < .5 else kt
             if d1[1] and R.random() < .4: d2 = ("dict", d2[1] + [(s.perturb(R.choice(d1[1])[0]), s.val_t(0))])
             return s.render(kt) + " " + call("ㄷ", [s.render(d1), s.render(d2)]) + " ㅎㄴ", "merge-lookup"
+        if k < .96:
+            # ONE dictionary value (bound to a parameter) used several times: looked up, merged as the FIRST and as a later operand, compared with its
+            # own literal, printed - in a random order inside one list; a merge must not change the dictionary it takes its entries from
+            d1, d2 = s.dic_t(d), s.dic_t(d); kt = s.key_t(1)
+            if d1[1] and R.random() < .5: d2 = ("dict", d2[1] + [(s.perturb(R.choice(d1[1])[0]) if R.random() < .5 else R.choice(d1[1])[0], s.val_t(0))])
+            if d2[1] and R.random() < .7: kt = R.choice(d2[1] + d1[1])[0]
+            X = s.render(d2); K = s.render(kt)
+            uses = [f"(ㄱㅇㄱ {X} ㄷㅎㄷ)", f"({K} ㄱㅇㄱ ㅎㄴ) ((ㅈㅈㄱ) ㅎ) ㅅㄷㅎㄷ", "(ㄱㅇㄱ)", f"(ㄱㅇㄱ {s.render(d1)} ㄴㅎㄷ)", f"({X} ㄱㅇㄱ ㄷㅎㄷ)", f"(ㄱㅇㄱ {X} {X} ㄷㅎㄹ)", f"({K} (ㄱㅇㄱ {X} ㄷㅎㄷ) ㅎㄴ) ((ㅈㅈㄱ) ㅎ) ㅅㄷㅎㄷ"]
+            R.shuffle(uses); uses = uses[:R.randrange(3, 7)]
+            return f"{s.render(d1)} ({call('ㅁㄹ', uses)} ㅎ) ㅎㄴ", "shared-dict"
         return s.dic(d), "dict"
 
 def c06_eq(r, seed, tier, model_ok):
@@ -255,6 +265,19 @@ def c12_seq(r, seed, tier, model_ok):
             sep, _ = seq(kind, R.choice([0, 1, 2])); parts = [seq(kind, R.randrange(0, 4))[0] for _ in range(R.randrange(0, 4))]
             t = call("ㄱㅁ", [call("ㅁㄹ", parts)] + ([sep] if R.random() < .8 else [])); kk = "join"
         else: t = call("ㄷ", [s, seq(kind)[0]] + ([seq(kind)[0]] if R.random() < .3 else [])); kk = "concat"
+        if kk in ("slice", "map", "filter", "concat", "split", "join") and R.random() < .4:
+            # the RESULT of one sequence operation handed to another: it must be a sequence of the documented kind in every respect, not only when printed
+            c2 = R.choice(["index", "index", "len", "slice", "concat", "equal", "map", "filter", "fold", "index-of-slice"]); inner = f"({t})"
+            if c2 == "index": t = f"{E(R.choice([0, 1, -1, 2, -2, 5, -7]))} {inner} ㅎㄴ"
+            elif c2 == "len": t = call("ㅈㄷ", [inner])
+            elif c2 == "slice": t = call("ㅂㅈ", [inner, E(R.choice([0, 1, -1, -3])), E(R.choice([0, 2, -1, 9])), E(R.choice([1, 2, -1]))])
+            elif c2 == "concat": t = call("ㄷ", [inner, inner])
+            elif c2 == "equal": t = call("ㄴ", [inner, inner])
+            elif c2 == "map": t = call("ㅁㄷ", [inner, "(ㄱㅇㄱ ㅎ)"])
+            elif c2 == "filter": t = call("ㅅㅂ", [inner, "(ㅈㅈㅎㄱ ㅎ)"])
+            elif c2 == "fold": t = call("ㅅㄹ", [inner, E(0), "(ㄴㅇㄱ ㅎ)"])
+            else: t = f"{E(R.choice([0, -1, 1]))} {call('ㅂㅈ', [inner, E(R.choice([0, 1])), E(R.choice([5, -1, 2]))])} ㅎㄴ"
+            kk = kk + ">" + c2
         cases.append(dict(text=t, trace=False)); kinds[kind + ":" + kk] += 1
     a = impl_run(cases)
     # oracle: join . split = id
@@ -357,6 +380,36 @@ def c16_codecs(r, seed, tier, model_ok):
             elif want_ok and m_ != "OK " + ",".join(str(ord(ch)) for ch in py): badu.append(dict(program="utf-8 decode of " + str(list(bs)), impl=got[:80], model=m_[:80], which=["utf8-decoder-value"]))
         r.slice("utf8_vs_proved_model", len(u8) + len(rnd), len(u8) + len(set(rnd)), [str(list(rnd[0]))], dict(encoded_strings=len(u8), byte_strings_decoded=len(rnd), accepted=sum(1 for x in md if x != "REJECT")),
                 "UTF-8 encoding of generated strings and strict decoding of random / malformed byte strings: implementation vs the RFC 3629 model of Utf.v (whose round trip is a theorem)", badu[:40])
+        # UTF-16 / UTF-32 in each byte order and with a byte-order mark: implementation and harness encoder vs the model of Utf16.v (round trips are theorems)
+        wide = [(s_, w, o) for s_, w, o in strs if w in (2, 4)]
+        lines = [f"U{8 * w}\t{o or 'bom'} " + ",".join(str(ord(ch)) for ch in s_) for s_, w, o in wide]
+        mo = vlib.driver("driver", lines); badw = []
+        ec = [dict(text=(f"({bytes_lit(s_.encode('utf-32-le'))} ㄱ ㅁ ㄱㅈㅎㄱ ㅂ ㅂ ㅂㅎㄷ ㅎㄹ ㅎㄴ)" if s_ else "(ㅁㅈㅎㄱ)") + f" {codec(0, w, o)} ㅎㄴ", trace=False) for s_, w, o in wide]; ea = impl_run(ec)
+        for (s_, w, o), m_, c_, o_ in zip(wide, mo, ec, ea):
+            mb = bytes(int(x) for x in m_.split(",")) if m_ else b""
+            if res(o_) != "V " + fmtb(mb): badw.append(dict(program=c_["text"], impl=res(o_)[:160], model=f"Utf16.v: {fmtb(mb)[:160]}", which=[f"utf{8 * w}-encode-model"]))
+        rndw = []
+        for _ in range(N(tier, 3000, 60000)):
+            w = R.choice([2, 4]); o = R.choice([None, "le", "be"]); k = R.random()
+            if k < .5: bs = bytes(R.randrange(256) for _ in range(R.choice([w, 2 * w, 3 * w, w + 1, 2 * w - 1])))
+            else:      # units around the surrogate range and the top of the code space, in the requested order, possibly after a mark of either order
+                us = [R.choice([0xD7FF, 0xD800, 0xDBFF, 0xDC00, 0xDFFF, 0xE000, 0xFEFF, 0xFFFE, 0x41, 0xFFFF] + ([0x10000, 0x10FFFF, 0x110000] if w == 4 else [])) for _ in range(R.randrange(1, 4))]
+                big = (o == "be") if o else R.random() < .3
+                bs = b"".join(u.to_bytes(w, "big" if big else "little") for u in us)
+                if o is None and R.random() < .7: bs = (0xFEFF).to_bytes(w, "big" if big else "little") + bs
+            rndw.append((w, o, bs))
+        md = vlib.driver("driver", [f"U{8 * w}D\t{o or 'bom'} " + ",".join(str(b) for b in bs) for w, o, bs in rndw])
+        dc = [dict(text=f"({bytes_lit(bs)} {codec(0, w, o)} ㅎㄴ) (ㄱ ㅁ ㄱㅈㅎㄱ ㅂ ㅂ ㅂㅎㄷ ㅎㄹ) ㅎㄴ", trace=False) for w, o, bs in rndw]      # decode, then show the string as UTF-32-LE bytes
+        da = impl_run(dc)
+        for (w, o, bs), m_, c_, o_ in zip(rndw, md, dc, da):
+            got = res(o_)
+            if m_ == "REJECT":
+                if not got.startswith("E 5,"): badw.append(dict(program=c_["text"], impl=got[:160], model=f"Utf16.v rejects the bytes {list(bs)} (order {o})", which=[f"utf{8 * w}-strict-decoder"]))
+            else:
+                cps = [int(x) for x in m_[3:].split(",")] if m_[3:] else []; wantb = b"".join(cp.to_bytes(4, "little") for cp in cps)
+                if got != "V " + fmtb(wantb): badw.append(dict(program=c_["text"], impl=got[:160], model=f"Utf16.v decodes {list(bs)} (order {o}) to code points {cps}", which=[f"utf{8 * w}-decoder-value"]))
+        r.slice("utf16_32_vs_proved_model", len(wide) + len(rndw), len({(s_, w, o) for s_, w, o in wide}) + len(set(rndw)), [str(rndw[0])], dict(encoded_strings=len(wide), byte_strings_decoded=len(rndw), accepted=sum(1 for x in md if x != "REJECT")),
+                "UTF-16 / UTF-32 encoding of generated strings (le / be / byte-order mark) and strict decoding of random and boundary byte strings: implementation vs the model of Utf16.v", badw[:40])
         ic = [c for c, w in zip(cases, want) if "ㅁ ㄱㅈㅎㄱ" not in c["text"] and w != "?" and "ㅁㅈㅎㄱ" not in c["text"]]
         ia = [o for c, o, w in zip(cases, a, want) if "ㅁ ㄱㅈㅎㄱ" not in c["text"] and w != "?" and "ㅁㅈㅎㄱ" not in c["text"]]
         b = model_run(ic); dist, bad2 = compare(ic, ia, b, fields=("res",))
@@ -516,6 +569,12 @@ def c18_cli(r, seed, tier, model_ok):
             args = [R.choice(["", "", "a", "bc", " ", "0", "한글", "x y", "-c", "--"]) for _ in range(R.randrange(0, 5))]
             if args: i = R.randrange(len(args)); progs.append((f"{E(i)}ㅇㄱ ㅈㄷㅎㄴ ㅎ", tuple(args), ("status", len(args[i])), "function"))      # length of the i-th argument string
             else: progs.append((f"{E(v)} ㅎ", (), ("status", v), "function"))
+        elif k < .82:      # top-level functions that are not literal definitions: spread (any number of arguments), pipe
+            args = [R.choice(["", "a", "bc", "한글"]) for _ in range(R.randrange(0, 5))]
+            c = R.random()
+            if c < .4: progs.append(("ㅈㄷ ㅂㅂㅎㄴ", tuple(args), ("status", len(args)), "spread-function"))
+            elif c < .7: progs.append(("(ㄱㅇㄱ ㅈㄷㅎㄴ ㅎ) ㅂㅂㅎㄴ", tuple(args), ("status", len(args)), "spread-function"))
+            else: a0 = R.choice(["", "a", "bcd"]); progs.append((f"(ㄱㅇㄱ ㅈㄷㅎㄴ ㅎ) (ㄱㅇㄱ {E(v % 7)} ㄷㅎㄷ ㅎ) ㄴㄱㅎㄷ", (a0,), ("status", len(a0) + v % 7), "pipe-function"))
         elif k < .9: progs.append((f"({E(v)} ㅁㅈㅎㄴ ㅈㄹㅎㄴ) ({E(v)} ㄱㅅㅎㄴ ㅎ) ㄱㄹㅎㄷ", (), ("status+out", v, f"{v}\n"), "io"))
         else: progs.append((f"(ㄹㅎㄱ) ((ㄱㅇㄱ ㅈㄷㅎㄴ) ㄱㅅㅎㄴ ㅎ) ㄱㄹㅎㄷ", (), ("status", 2), "io-read"))
     for text, argv, want, kind in progs:
